@@ -1,4 +1,6 @@
 import LeptosModel.Proofs.HydrateState
+import LeptosModel.Proofs.HydrateLoad
+import LeptosModel.Proofs.HydrateInitial
 /-!
 # C05 — hydration adopts server-rendered HTML without mismatch
 
@@ -13,11 +15,13 @@ optional attributes, tuples nested arbitrarily (= fragments), `Option`, `Either`
 |---|---|
 | `C05_parse_print`                      | proved (all `wfV` views)                                             |
 | `C05_hydrate_succeeds`                 | proved (all `wfH` views, every DOM that holds `domOf v`)            |
-| `C05_hydrate_parsed`                   | proved (composition, under the executable check `loadOK`)            |
+| `C05_load_realises`                    | proved (every parsed forest with distinct attribute names per element) |
+| `C05_hydrate_parsed`                   | proved (composition print → parse → load → hydrate, all `wfV` views)  |
 | `C05_state_eq_build_state_mod_ids`     | proved (every DOM, every cursor: *if* the walk succeeds)              |
+| `C05_initial_dom_like_csr_partial`     | proved (all `wfV` views with plain attributes and no empty string: DOM after hydration = client-built DOM, comments aside); `…_full_false` |
 | `C05_then_like_csr_full`               | **false of the code** (F-C05-1): `C05_empty_text_witness`, `C05_then_like_csr_full_false` |
 | `C05_then_like_csr_partial_stmt`       | OPEN (statement only; exercised by the correspondence run on every case; instances below by `decide`) |
-| `C05_load_realises_stmt`               | OPEN (statement only; `loadOK` is evaluated by the driver on every case) |
+| `C05_raw_text_child_witness`           | F-C05-2, outside the `wfV` grammar: a hydrated `<textarea>`/`<style>`/`<script>`/`<noscript>` keeps no child state |
 
 Streamed forms (remark, not a theorem of this file): for a view without asynchronous parts the
 in-order and the out-of-order stream concatenate to `toHtml v` (checked on every case of the
@@ -65,22 +69,25 @@ theorem C05_hydrate_succeeds (v : View) (hw : wfH v = true) (d : Dom) (root : Id
     | cons _ _ => simp [realL] at h2
   exact ⟨c', h3, by rw [h4, hrest], h7⟩
 
-/-- loading a parsed forest below a fresh root yields a DOM that holds it — OPEN as a general
-statement (evaluated on every case by the driver; instances below) -/
-def C05_load_realises_stmt : Prop := ∀ ts : List HTree, loadOK ts = true
+/-- **the loaded DOM holds the parsed forest**: building one node per parsed node in document order
+(what the correspondence harness does with the parser's output, what a browser's tree builder does)
+below a fresh root gives a DOM that `Realises` the forest — for every forest whose elements have
+pairwise distinct attribute names (the parser never produces a duplicate). -/
+theorem C05_load_realises (ts : List HTree) (h : nodupAttrsL ts = true) :
+    Realises (loadRoot ts).1 (loadRoot ts).2.1 (loadRoot ts).2.2 ts :=
+  loadRoot_realises ts h
 
 /-- **composition**: print, parse, load, hydrate.  For every view of the grammar, hydrating it
-against the DOM built from what the parser reads in its own SSR string succeeds with 0 nodes created
-and binds exactly the loaded nodes (hypothesis `loadOK`: the executable check that the loaded DOM
-holds the parsed forest, see `C05_load_realises_stmt`). -/
-theorem C05_hydrate_parsed (v : View) (h : wfV [[]] v = true) (hl : loadOK (domOf v) = true) :
+against the DOM built from what the parser reads in its own SSR string succeeds with 0 nodes created,
+binds exactly the loaded nodes and leaves none over. -/
+theorem C05_hydrate_parsed (v : View) (h : wfV [[]] v = true) :
     ∃ ts, Html.parse (toHtml v) = some ts ∧
       ∃ c, hydrateFrom (loadRoot ts).1 (loadRoot ts).2.1 v =
           .ok ⟨(adopt v .firstChild (loadRoot ts).2.2).1, c, 0⟩ ∧
         bound (loadRoot ts).1 (adopt v .firstChild (loadRoot ts).2.2).1 = true := by
   refine ⟨domOf v, C05_parse_print v h, ?_⟩
   have hr : Realises (loadRoot (domOf v)).1 (loadRoot (domOf v)).2.1 (loadRoot (domOf v)).2.2 (domOf v) :=
-    realises_of_realisesB (by simpa [loadOK] using hl)
+    C05_load_realises _ (nodupAttrs_dom v _ .firstChild h)
   obtain ⟨c, h1, _, h3⟩ := C05_hydrate_succeeds v (wfH_of_wfV v _ h) _ _ _ hr
   exact ⟨c, h1, h3⟩
 
@@ -95,30 +102,37 @@ theorem C05_state_eq_build_state_mod_ids (v : View) (hw : wfH v = true) (d : Dom
     (d' : Dom) (h : hydrate d v c = .ok o) : nshape o.state = nshape (build v d').2 :=
   shape_hyd d v c o d' hw h
 
-/-! ## 4. after hydration the view behaves like a client-built one — refuted for `""` -/
+/-! ## 4. after hydration the view shows what a client-built one shows — except for `""` -/
 
-/-- views whose attributes are plain (`String`, `Option<String>`, `bool`): class and style values are
-normalised differently by the SSR printer (`trim`, `name:value;`) and by the DOM (`classList`,
-`name: value;`), which is C03/C06's subject, not C05's -/
-def plainAttr : AttrVal → Bool
-  | .str _ _ => true
-  | .ostr _ _ => true
-  | .bool _ _ => true
-  | _ => false
+/-- the full statement about the DOM right after hydration (hydration does not touch the DOM, so this
+is the DOM the browser built from the SSR string): comments aside, it is the DOM of a client-side
+build of the same view -/
+def C05_initial_dom_like_csr_full : Prop :=
+  ∀ v : View, wfV [[]] v = true → plainV v = true → stripL (toDomTrees (domOf v)) = stripL (render v)
 
-mutual
-def plainV : View → Bool
-  | .elem _ as c => as.all plainAttr && plainV c
-  | .tuple vs => plainL vs
-  | .osome v => plainV v
-  | .either _ _ v => plainV v
-  | .vec vs => plainL vs
-  | .any _ v => plainV v
-  | _ => true
-def plainL : List View → Bool
-  | [] => true
-  | v :: vs => plainV v && plainL vs
-end
+/-- **initial DOM like CSR** (partial: no empty string): for every view of the grammar with plain
+attributes and without an empty string, what the browser builds from the SSR string shows — marker
+comments removed, adjacent text merged — exactly what `build` + `mount` of the same view shows
+(`render`, the specification side of C03): the same elements, the same attributes in the same order,
+the same text. -/
+theorem C05_initial_dom_like_csr_partial (v : View) (hw : wfV [[]] v = true) (hp : plainV v = true)
+    (hne : hasEmptyText v = false) : stripL (toDomTrees (domOf v)) = stripL (render v) := by
+  have h : "" ∉ texts v := by simpa [hasEmptyText] using hne
+  have := initial_view v [[]] .firstChild [] hw hp h
+  simpa [stripL_eq_foldr, domOf] using this
+
+/-- the hypothesis cannot be dropped (F-C05-1): the view `""` shows `" "` after hydration and nothing
+when built on the client -/
+theorem C05_initial_dom_like_csr_full_false : ¬ C05_initial_dom_like_csr_full := by
+  intro h
+  have := h (.text "") (by decide) (by decide)
+  simp [domOf, dom, textNode, toDomTrees, toDomTree, render, stripL, stripT, pushText] at this
+
+/-! ## 5. … and keeps behaving like one under rebuilds — refuted for `""`, otherwise OPEN -/
+
+/- `plainV` (Proofs/HydrateInitial.lean): views whose attributes are plain (`String`, `Option<String>`,
+`bool`).  Class and style values are normalised differently by the SSR printer (`trim`, `name:value;`)
+and by the DOM (`classList`, `name: value;`), which is C03/C06's subject, not C05's. -/
 
 /-- the views `a`, `b` the property compares: two values of one Rust type, inside the grammar -/
 def Comparable (a b : View) : Prop :=
@@ -154,6 +168,17 @@ the client-built tree shows `ab` -/
 theorem C05_empty_text_witness_mid :
     likeCsr (domOf (.tuple [.text "a", .text "", .text "b"])) (.tuple [.text "a", .text "", .text "b"])
       (.tuple [.text "a", .text "", .text "b"]) = false := by decide +kernel
+
+/-- **F-C05-2** (kernel-evaluated; outside the grammar `wfV`, which has no raw-text elements): an
+element with `ESCAPE_CHILDREN = false` hydrates with `children: None` (html/element/mod.rs `hydrate`:
+`if !Ch::EXISTS || !E::ESCAPE_CHILDREN { None }`), so a later rebuild never reaches its children:
+`<textarea>a</textarea>` rebuilt with `"b"` still reads `a`; built on the client it reads `b`. -/
+theorem C05_raw_text_child_witness :
+    let a : View := .elem "textarea" [] (.tuple [.text "a"])
+    let b : View := .elem "textarea" [] (.tuple [.text "b"])
+    hasRawKids a = true ∧ (Html.parse (toHtml a)).map (fun ts => likeCsr ts a b) = some false ∧
+      (Html.parse (toHtml a)).map (fun ts => likeCsr ts a a) = some true := by
+  refine ⟨by decide +kernel, by decide +kernel, by decide +kernel⟩
 
 /-- the strongest statement expected to hold of the code (class `empty-text` excluded: no string of
 `a` is empty) — OPEN: stated, not proved; the correspondence run evaluates it on every generated pair
